@@ -128,6 +128,8 @@ def decode(code):
             ops.append(["start"])
         elif o <= 8:
             ops.append(["disable"])
+        elif o == 9 and s == 3:
+            ops.append(["run", 2 + a, 1 + a // 2])  # disable() is called from the iteration function of iteration 1 + a//2
         elif o == 9:
             ops.append(["run", 1 + a])
         elif o == 10 and names:
@@ -346,10 +348,14 @@ class C14(Lab):
                         c = chosen()
                         if c is not None and c != (dnames[0] if dnames else None):
                             selected_non_default = True
-                        self.drive_run(sel, op[1], case)
+                        cut = op[2] if len(op) > 2 else None
+                        self.drive_run(sel, op[1], case, disable_at=cut)
                         periods += 1
                         classes.add("run()")
-                        want = ([(c, "on_enable")] + [(c, "on_iteration")] * op[1] + [(c, "on_disable")]) if c else []
+                        n_it = op[1] if cut is None else min(op[1], cut)
+                        if cut is not None and cut <= op[1]:
+                            classes.add("disable-inside-run")
+                        want = ([(c, "on_enable")] + [(c, "on_iteration")] * n_it + [(c, "on_disable")]) if c else []
                         ex = expect(want, f"run op {oi}")
                         ts = [tt for _, ev, _, tt in ex if ev == "on_iteration"]
                         if any(b < a for a, b in zip(ts, ts[1:])) or any(t < 0 for t in ts):
@@ -382,7 +388,7 @@ class C14(Lab):
             err = None
             gc.collect()
 
-    def drive_run(self, sel, n, case):
+    def drive_run(self, sel, n, case, disable_at=None):
         """one autonomous period through selector.run() in a thread, n loop iterations"""
         from wpilib.simulation import DriverStationSim as DSS
         import hal.simulation as hs
@@ -393,9 +399,17 @@ class C14(Lab):
         DSS.notifyNewData()
         box = {}
 
+        calls = [0]
+
+        def iter_fn():
+            # code that runs in every autonomous iteration may end the period early through the public API
+            calls[0] += 1
+            if disable_at is not None and calls[0] == disable_at:
+                sel.disable()
+
         def main():
             try:
-                sel.run(0.02)
+                sel.run(0.02, iter_fn)
             except BaseException as e:  # noqa
                 box["exc"] = e
             finally:
